@@ -23,6 +23,11 @@ type Prop struct {
 	// AlsoEngine: a second engine that decides another half of the property;
 	// every AlsoEvery-th batch of runs (by run index, so that a run index always
 	// names the same engine) goes to it. Replay files carry their own engine.
+	// CrashIsViolation: the property says the code never crashes the node, so a
+	// worker process that dies while executing a run (a fatal runtime error that
+	// no recover can contain, e.g. a failed multi-GiB allocation), confirmed in
+	// fresh processes, is a violation and not harness trouble.
+	CrashIsViolation bool
 	AlsoEngine string
 	AlsoEvery  int
 	Race        bool
